@@ -45,6 +45,9 @@ type HScenario struct {
 	Configs []HConfig `json:"configs"`
 	Ops     []HOp     `json:"ops"`
 	LateMs  int       `json:"lateMs"` // when the second state subscriber joins
+	// Derive: every configuration after the first one handed out is built with WithConfigCopy(previous) in front of its
+	// own options (the documented way to derive a configuration); the result must not differ from a plain NewConfig
+	Derive bool `json:"derive,omitempty"`
 }
 
 type hResult struct {
@@ -141,6 +144,7 @@ func runHTTPScenario(sc HScenario) hResult {
 			noReqs = false
 		}
 	}
+	var lastBuilt atomic.Pointer[httpserver.Config]
 	mkConfig := func(ci int) (*httpserver.Config, error) {
 		c := sc.Configs[ci]
 		var routes httpserver.Routes
@@ -164,10 +168,18 @@ func runHTTPScenario(sc HScenario) hResult {
 			rec.add("CR%d:%d:%d", id, c.Addr, ci)
 			return recordingServer{httpserver.DefaultServerCreator(addr, h, cfg), id}
 		}
-		return httpserver.NewConfig(addrs[c.Addr], routes,
-			httpserver.WithDrainTimeout(time.Duration(c.DrainMs)*time.Millisecond),
-			httpserver.WithReadTimeout(time.Duration(c.ReadMs)*time.Millisecond),
-			httpserver.WithServerCreator(creator))
+		opts := []httpserver.ConfigOption{
+			httpserver.WithDrainTimeout(time.Duration(c.DrainMs) * time.Millisecond),
+			httpserver.WithReadTimeout(time.Duration(c.ReadMs) * time.Millisecond),
+			httpserver.WithServerCreator(creator)}
+		if prev := lastBuilt.Load(); sc.Derive && prev != nil {
+			opts = append([]httpserver.ConfigOption{httpserver.WithConfigCopy(prev)}, opts...)
+		}
+		cfg, err := httpserver.NewConfig(addrs[c.Addr], routes, opts...)
+		if err == nil {
+			lastBuilt.Store(cfg)
+		}
+		return cfg, err
 	}
 	var cbCount atomic.Int32
 	cb := func() (*httpserver.Config, error) {
@@ -500,7 +512,7 @@ func genHScenario(r interface {
 	}
 	lateMs := r.IntN(60)
 	base := HConfig{Kind: "ok", Addr: 0, DrainMs: []int{60, 100, 200}[r.IntN(3)], ReadMs: 1000, Routes: genRoutes()}
-	sc := HScenario{Configs: []HConfig{base}, LateMs: lateMs}
+	sc := HScenario{Configs: []HConfig{base}, LateMs: lateMs, Derive: r.IntN(3) == 0}
 	kind := "reloads"
 	nops := 1 + r.IntN(4)
 	cur := base
@@ -577,6 +589,18 @@ func genHScenario(r interface {
 }
 
 var hCorpus = []HScenario{
+	// a reload that changes nothing but the drain timeout, then a stop with a request in flight that lasts between the
+	// old and the new value: the drain of the stop honours the configuration in force
+	{Configs: []HConfig{{"ok", 0, 100, 1000, []HRoute{{"alpha", "/"}}}, {"ok", 0, 900, 1000, []HRoute{{"alpha", "/"}}}},
+		Ops: []HOp{{Kind: "reload"}, {Kind: "req:350"}, {Kind: "stop"}}},
+	{Configs: []HConfig{{"ok", 0, 900, 1000, []HRoute{{"alpha", "/"}}}, {"ok", 0, 100, 1000, []HRoute{{"alpha", "/"}}}},
+		Ops: []HOp{{Kind: "reload"}, {Kind: "req:450"}, {Kind: "stop"}}},
+	// a reload whose configuration was derived from the previous one (WithConfigCopy) and has other routes: the fresh
+	// server serves the new routes, not the old ones
+	{Derive: true, Configs: []HConfig{{"ok", 0, 100, 1000, []HRoute{{"alpha", "/"}, {"beta", "/b"}}}, {"ok", 0, 100, 1000, []HRoute{{"gamma", "/"}, {"delta", "/d"}}}},
+		Ops: []HOp{{Kind: "reload"}, {Kind: "stop"}}},
+	{Derive: true, Configs: []HConfig{{"ok", 0, 100, 1000, []HRoute{{"alpha", "/a"}}}, {"ok", 1, 100, 1000, []HRoute{{"alpha", "/a"}, {"beta", "/b"}}}, {"ok", 1, 100, 1000, []HRoute{{"beta", "/a"}}}},
+		Ops: []HOp{{Kind: "reload"}, {Kind: "reload"}}},
 	{Configs: []HConfig{{"ok", 0, 100, 1000, []HRoute{{"alpha", "/"}, {"beta", "/b"}}}, {"ok", 1, 100, 1000, []HRoute{{"alpha", "/"}, {"beta", "/b"}}}},
 		Ops: []HOp{{Kind: "reload"}, {Kind: "stop"}}},
 	{Configs: []HConfig{{"ok", 0, 100, 1000, []HRoute{{"alpha", "/"}, {"beta", "/b"}}}, {"ok", 0, 100, 1000, []HRoute{{"beta", "/"}, {"alpha", "/b"}}}},
